@@ -10,7 +10,7 @@ import numpy as np
 def make_case(rng):
     kinds = ["a", "b", "c"][: int(rng.randint(2, 4))]
     eps = int(rng.randint(1, 4))
-    case = dict(kinds=kinds, eps=[])
+    case = dict(kinds=kinds, eps=[], int_ts_first=bool(rng.rand() < 0.3))
     for e in range(eps):
         ep = dict(lens={k: int(rng.randint(1, 7)) for k in kinds}, edges={})
         for u in kinds:
@@ -35,15 +35,17 @@ def make_case(rng):
 def build(case):
     from rex.base import Graph, Vertex, Edge
     gs = []
-    for ep in case["eps"]:
+    for e_idx, ep in enumerate(case["eps"]):
         V = {}
+        dummy = bool(case.get("int_ts_first")) and e_idx == 0      # an episode without timestamps: integer dummy values (allowed by the Vertex / Edge docs)
         for k, n in ep["lens"].items():
             ts = np.cumsum(np.ones(n) * 0.1)
-            V[k] = Vertex(seq=np.arange(n), ts_start=ts, ts_end=ts + 0.05)
+            V[k] = Vertex(seq=np.arange(n), ts_start=np.zeros(n, dtype=int), ts_end=np.zeros(n, dtype=int)) if dummy else Vertex(seq=np.arange(n), ts_start=ts, ts_end=ts + 0.05)
         E = {}
         for key, lst in ep["edges"].items():
             u, v = key.split(">")
-            E[(u, v)] = Edge(seq_out=np.array([x[0] for x in lst], dtype=int), seq_in=np.array([x[1] for x in lst], dtype=int), ts_recv=np.array([x[2] for x in lst], dtype=float))
+            E[(u, v)] = Edge(seq_out=np.array([x[0] for x in lst], dtype=int), seq_in=np.array([x[1] for x in lst], dtype=int),
+                             ts_recv=np.zeros(len(lst), dtype=int) if dummy else np.array([x[2] for x in lst], dtype=float))
         gs.append(Graph(vertices=V, edges=E))
     return gs
 
@@ -76,12 +78,20 @@ def run_case(case):
             G = to_networkx_graph(gg, nodes={k: _N() for k in ep["lens"]})
             if set(G.nodes) != wn:
                 bad.append(f"episode {e} ({label}): nodes differ: extra={sorted(set(G.nodes) - wn)[:4]} missing={sorted(wn - set(G.nodes))[:4]}")
+            for key, lst in ep["edges"].items():
+                u, v = key.split(">")
+                got_tr = [float(x) for x in np.asarray(gg.edges[(u, v)].ts_recv)[:len(lst)]]
+                want_tr = [0.0] * len(lst) if (case.get("int_ts_first") and e == 0) else [x[2] for x in lst]
+                if any(abs(a_ - b_) > 1e-12 for a_, b_ in zip(got_tr, want_tr)):
+                    bad.append(f"episode {e} ({label}): receive times of {u}->{v} are {got_tr[:4]}, recorded {want_tr[:4]}")
+                    break
             if set(G.edges) != we:
                 bad.append(f"episode {e} ({label}): edges differ: extra={sorted(set(G.edges) - we)[:4]} missing={sorted(we - set(G.edges))[:4]}")
             for k in ep["lens"]:
                 for i in range(ep["lens"][k]):
                     nd = G.nodes.get(f"{k}_{i}")
-                    if nd is not None and abs(float(nd["ts_start"]) - 0.1 * (i + 1)) > 1e-9:
+                    want_ts = 0.0 if (case.get("int_ts_first") and e == 0) else 0.1 * (i + 1)
+                    if nd is not None and abs(float(nd["ts_start"]) - want_ts) > 1e-9:
                         bad.append(f"episode {e} ({label}): vertex {k}_{i} has ts_start {nd['ts_start']}")
     checks = sum(sum(ep["lens"].values()) for ep in case["eps"])
     rb, rc = records_part(case)
@@ -165,8 +175,11 @@ def main():
     rng = np.random.RandomState(2000 + a.seed)
     t0 = time.time()
     res = dict(cases=0, checks=0, bad_cases=[], samples=[], distinct=set(), errors=[])
+    pinned = False
     for i in range(a.n):
         case = make_case(rng)
+        if not pinned and len(case["eps"]) >= 2:      # always at least one stack whose first episode has integer dummy timestamps and a float episode after it
+            case["int_ts_first"] = pinned = True
         try:
             bad, nv = run_case(case)
         except Exception as e:
